@@ -73,9 +73,23 @@ LOCS = [0.0, -0.0, 1.0, -3.0, 0.1, 1 / 3, 1e-300, 1e22, 123456789.125, float("in
 
 
 def gen_roundtrip(rng):
-    desc = gen_ts.random_desc(rng, max_nodes=8, max_L=6, max_sites=4, max_muts=4, metadata=True,
+    desc = gen_ts.random_desc(rng, max_nodes=8, max_L=6, max_sites=rng.choice([4, 4, 6]), max_muts=4, metadata=True,
                               individuals=True, populations=True, migrations=True, alleles=ALLELES,
+                              unknown_times=False,
                               scale=rng.choice([1, 1, 0.5, 0.25, 2.5, 0.125, 1024.0, 0.0009765625]))
+    # mutation times are known or unknown PER SITE (the validity rule is per site): all known,
+    # all unknown, or a mix across sites in either order
+    mode = rng.choice(["known", "unknown", "mix", "mix", "mix"])
+    for j in range(len(desc["sites"])):
+        blank = mode == "unknown" or (mode == "mix" and rng.random() < 0.5)
+        if blank:
+            for m in desc["mutations"]:
+                if m[0] == j:
+                    m[4] = None
+    # application-defined flag bits on top of the sample flag
+    for nd in desc["nodes"]:
+        if rng.random() < 0.2:
+            nd[0] |= rng.choice([1 << 16, 1 << 19, 1 << 31])
     if rng.random() < 0.5 and len(desc["populations"]) < 2 and desc["nodes"]:
         # make migrations possible more often
         while len(desc["populations"]) < 2:
@@ -274,12 +288,74 @@ def compare_tables(a, b, prefix):
     return out
 
 
+# dumped text, token by token, against the original rows (own Base64, float(token) == value)
+DUMP_COLS = {
+    "nodes": ["id", "is_sample", "time", "population", "individual", "metadata"],
+    "edges": ["left", "right", "parent", "child", "metadata"],
+    "sites": ["position", "ancestral_state", "metadata"],
+    "mutations": ["site", "node", "time", "derived_state", "parent", "metadata"],
+    "individuals": ["id", "flags", "location", "parents", "metadata"],
+    "populations": ["id", "metadata"],
+    "migrations": ["left", "right", "node", "source", "dest", "time", "metadata"],
+}
+
+
+def dump_tokens_ok(kind, col, tok, i, row, edge_md):
+    """row is in table_rows layout"""
+    val = dict(zip(FIELDS[kind], row))
+    if col == "id":
+        return tok == str(i)
+    if col == "metadata":
+        md = edge_md if kind == "edges" else val["metadata"]
+        return tok == own_b64(bytes.fromhex(md))
+    v = val[col]
+    if col in ("left", "right", "position", "time"):
+        if v == "unknown":
+            return tok == "unknown"
+        try:
+            return tok != "unknown" and fhex(float(tok)) == v
+        except ValueError:
+            return False
+    if col == "location":
+        toks = tok.split(",") if tok else []
+        try:
+            return [fhex(float(t)) for t in toks] == v
+        except ValueError:
+            return False
+    if col == "parents":
+        return tok == ",".join(str(x) for x in v)
+    return tok == str(v)
+
+
+def check_dump_text(obs):
+    out = []
+    for kind in TABLES:
+        lines = obs["text"][kind].split("\n")
+        rows = obs["orig"][kind]
+        cols = DUMP_COLS[kind]
+        trailing = 1 if kind == "migrations" else 0
+        if lines[0].split("\t") != cols or lines[-1] != "" or len(lines) != len(rows) + 2:
+            out.append(("dump-%s-shape" % kind, "header %r, %d lines for %d rows" % (lines[0], len(lines) - 2, len(rows))))
+            continue
+        for i, (ln, row) in enumerate(zip(lines[1:-1], rows)):
+            toks = ln.split("\t")
+            if len(toks) != len(cols) + trailing or (trailing and toks[-1] != ""):
+                out.append(("dump-%s-fieldcount" % kind, "row %d: %r" % (i, ln)))
+                break
+            emd = obs["orig"]["edge_metadata"][i] if kind == "edges" else None
+            badc = [c for c, t in zip(cols, toks) if not dump_tokens_ok(kind, c, t, i, row, emd)]
+            if badc:
+                out.append(("dump-%s-%s" % (kind, badc[0]), "row %d: %r for %r" % (i, ln, row)))
+                break
+    return out
+
+
 def oracle_roundtrip(case, obs):
     if "skip" in obs:
         return []
     if "dump_err" in obs:
         return [("dump-error", obs["dump_err"])]
-    out = []
+    out = check_dump_text(obs)
     if "load_err" in obs:
         out.append(("load-error", obs["load_err"]))
     else:
@@ -360,6 +436,8 @@ class Roundtrip(Family):
             "individuals": min(len(o.get("individuals", [])), 3),
             "mutations": min(len(o.get("mutations", [])), 8),
             "unknown_times": any(r[2] == "unknown" for r in o.get("mutations", [])),
+            "time_mix_across_sites": len({(r[0], r[2] == "unknown") for r in o.get("mutations", [])}) > 1
+            and len({r[2] == "unknown" for r in o.get("mutations", [])}) > 1,
             "empty_state": any(r[3] == "" for r in o.get("mutations", [])) or any(r[1] == "" for r in o.get("sites", [])),
             "md_empty": any(m == "" for m in mds), "md_nul": any("00" in m for m in mds),
             "md_ff": any("ff" in m for m in mds),
